@@ -7,7 +7,8 @@
 //       flush / finish, nothing is pending.  op: p process, f flush, e finish; chunk: bytes or R (rest).
 //       answer:  R st=<ok|false@<call>|stall@<call>|unfinished|PANIC(..)> fin=<0|1> n=<input len> ih=<hash>
 //                calls=<n> cfg=<quality,lgwin,lgblock,npostfix,ndirect,alphabet,maxdist,rbsize,rbmask,rbtail,rbtotal,rbpos,hasher>
-//                rb=<ok|na|bad:..> tr=<back-end invocations: total,fast,uncompressed-looking> rd=<..> gd=<..> out=<hex|->
+//                rb=<ok|na|bad:..> tr=<back-end invocations: total,fast> rd=<..> gd=<..>
+//                rg=<emitted bytes>:<dist_cache_[0..4]>:<prev_byte_.prev_byte2_>;... (state at completed flush/finish) out=<hex|->
 //       rd / gd: ok | reject | mismatch | trailing | na
 //   X <allow_large> <hex>     both decoders on arbitrary bytes:  rd=<A len hash|T len hash|R> gd=<..>
 //                             (A accepted, all input consumed; T success with input left over; R rejected / truncated)
@@ -161,13 +162,87 @@ fn judge(r: (char, Vec<u8>), expect: &[u8]) -> &'static str {
 }
 
 // ---------------------------------------------------------------------------------- inputs
+thread_local! {
+    /// description of the segments of the last `rs` data recipe: A:<repeat length>:<distance> / B:<repeat length>:<distance>:<variant>
+    static SEGS: std::cell::RefCell<String> = std::cell::RefCell::new(String::new());
+}
 fn data_of(kind: &str, len: usize, seed: u64) -> Vec<u8> {
+    SEGS.with(|g| g.borrow_mut().clear());
     let mut r = Rng::new(seed ^ 0x5bd1e995);
     if let Some(p) = kind.strip_prefix("far") {
         // PRNG block of the given period, repeated: distances of exactly `period`
         let period: usize = p.parse().unwrap_or(1000).max(1);
         let base: Vec<u8> = (0..period.min(len.max(1))).map(|_| r.next() as u8).collect();
         return (0..len).map(|i| base[i % base.len()]).collect();
+    }
+    if let Some(p) = kind.strip_prefix("rs") {
+        // "ring segments": segments of S bytes.  Segment 0: PRNG bytes.  Odd segments (A): PRNG bytes with ONE
+        // embedded repeat at a fresh distance (mostly incompressible: they end up as stored meta-blocks although the
+        // match finder saw a copy).  Even segments >= 2 (B): a few PRNG bytes, a repeat whose distance is the one
+        // of the previous A segment, that distance +-1..3 (the derived short codes), or one of the decoder's initial
+        // ring values 4, 11, 15, 16, followed by compressible text.  Everything is derived from the seed.
+        let sz: usize = p.parse().unwrap_or(1000).max(64);
+        let mut v: Vec<u8> = Vec::with_capacity(len + 32);
+        let text = b"the quick brown fox jumps over the lazy dog and ";
+        let mut last_d: usize = 0;
+        let mut j = 0usize;
+        while v.len() < len {
+            let seg_len = sz.min(len - v.len());
+            let start = v.len();
+            for _ in 0..seg_len {
+                v.push(r.next() as u8);
+            }
+            if j > 0 && j % 2 == 1 && seg_len >= 64 {
+                let cl = match r.below(5) {
+                    0 => 4 + r.below(5) as usize,
+                    1 | 2 => 8 + r.below(17) as usize,
+                    3 => seg_len / 100 + 2 + r.below(8) as usize,
+                    _ => seg_len * 3 / 200 + 4,
+                }
+                .max(4)
+                .min(seg_len / 2);
+                let at = r.below((seg_len - cl) as u64) as usize;
+                let pos = start + at;
+                if pos > cl {
+                    let span = (pos - cl).min(3 * sz);
+                    let d = cl + 1 + r.below(span as u64) as usize;
+                    let d = d.min(pos);
+                    for i in 0..cl {
+                        v[pos + i] = v[pos + i - d];
+                    }
+                    last_d = d;
+                    SEGS.with(|g| g.borrow_mut().push_str(&format!("{}A:{}:{}:{},", j, cl, d, seg_len)));
+                }
+            } else if j > 0 && j % 2 == 0 && seg_len >= 48 {
+                let lead = r.below(12) as usize;
+                let cl = (10 + r.below(14) as usize).min(seg_len - lead - 1);
+                let pos = start + lead;
+                let cand: [i64; 12] = [0, 1, -1, 2, -2, 3, -3, 0, 0, 0, 0, 0];
+                let vsel = r.below(12) as usize;
+                let mut d: usize = if vsel < 8 && last_d > 0 {
+                    (last_d as i64 + cand[vsel]).max(1) as usize
+                } else {
+                    [4usize, 11, 15, 16][r.below(4) as usize]
+                };
+                if d > pos {
+                    d = pos.max(1);
+                }
+                if pos >= d {
+                    for i in 0..cl {
+                        v[pos + i] = v[pos + i - d];
+                    }
+                    SEGS.with(|g| g.borrow_mut().push_str(&format!("{}B:{}:{}:{},", j, cl, d, if vsel < 8 && last_d > 0 { cand[vsel].to_string() } else { "init".to_string() })));
+                }
+                let mut t = r.below(text.len() as u64) as usize;
+                for i in (lead + cl)..seg_len {
+                    v[start + i] = text[t % text.len()];
+                    t += 1;
+                }
+            }
+            j += 1;
+        }
+        v.truncate(len);
+        return v;
     }
     match kind {
         "runs" => {
@@ -350,6 +425,7 @@ fn run_e(toks: &[&str]) -> String {
     let mut ncalls = 0usize;
     let mut ci = 0usize;
     let mut status = "ok".to_string();
+    let mut snaps: Vec<String> = Vec::new();
     let r = std::panic::catch_unwind(AssertUnwindSafe(|| {
         'outer: for (li, (op, chunk)) in sc.calls.iter().enumerate() {
             let end = match chunk {
@@ -383,6 +459,22 @@ fn run_e(toks: &[&str]) -> String {
                 }
                 let done = inbuf.is_empty() && (*op == 0 || (!e.more() && took == 0 && (*op != 2 || e.finished())));
                 if done {
+                    if *op != 0 && !emitted.is_empty() {
+                        let st = &e.st;
+                        // everything handed over and emitted: the encoder's idea of the decoder's state
+                        if st.last_flush_pos_ == st.input_pos_ {
+                            snaps.push(format!(
+                                "{}:{}.{}.{}.{}:{}.{}",
+                                emitted.len(),
+                                st.dist_cache_[0],
+                                st.dist_cache_[1],
+                                st.dist_cache_[2],
+                                st.dist_cache_[3],
+                                st.prev_byte_,
+                                st.prev_byte2_
+                            ));
+                        }
+                    }
                     break;
                 }
                 if consumed == 0 && produced.is_empty() && took == 0 {
@@ -424,7 +516,7 @@ fn run_e(toks: &[&str]) -> String {
         };
     }
     format!(
-        "R st={} fin={} n={} ih={} calls={} cfg={} rb={} tr={},{} rd={} gd={} out={}",
+        "R st={} fin={} n={} ih={} calls={} cfg={} rb={} tr={},{} rd={} gd={} rg={} sg={} out={}",
         status,
         fin as u8,
         data.len(),
@@ -436,6 +528,15 @@ fn run_e(toks: &[&str]) -> String {
         nfast,
         rd,
         gd,
+        if snaps.is_empty() {
+            "-".to_string()
+        } else {
+            // at most 10 snapshots: the first five, the last five
+            let k = snaps.len();
+            let pick: Vec<&String> = snaps.iter().enumerate().filter(|(i, _)| *i < 5 || *i + 5 >= k).map(|(_, x)| x).collect();
+            pick.iter().map(|x| x.as_str()).collect::<Vec<&str>>().join(";")
+        },
+        SEGS.with(|g| if g.borrow().is_empty() { "-".to_string() } else { g.borrow().clone() }),
         if sc.nohex || emitted.is_empty() { format!("-{}", emitted.len()) } else { hex(&emitted) }
     )
 }
